@@ -13,7 +13,7 @@
 //! * fuzz: arbitrary strings and byte streams into every parser.
 //!
 //! usage: payreq --out TRACE [--scripts FILE] [--cases FILE] [--seed S] [--muts K] [--full N]
-//!               [--fuzz N] [--first-run R]
+//!               [--fuzz N] [--first-run R] [--sweeps FILE] [--sweep-bits MAX]
 //! (values are seeded by `seed` and the run number; `--first-run R` numbers the first run R so that
 //! a single script / case of a larger batch can be replayed with identical values)
 
@@ -257,6 +257,26 @@ fn alterations(
 		let mut r = recs.clone();
 		tlv_set(&mut r, 4, vec![7u8; 20]);
 		return vec![("offer_metadata_added".to_string(), r)];
+	}
+	if cls == "bit" {
+		// one single bit of one TLV value (request-level records only: an invoice's own fields are
+		// the responder's to choose); keys -- and their parity byte -- get extra weight
+		let idx: Vec<usize> =
+			(0..recs.len()).filter(|i| recs[*i].0 < 160 && !recs[*i].1.is_empty()).collect();
+		let keys: Vec<usize> = idx.iter().copied().filter(|i| recs[*i].1.len() == 33).collect();
+		for _ in 0..48 {
+			let (i, byte, bit) = if !keys.is_empty() && rng.gen_bool(0.3) {
+				let i = *keys.choose(rng).unwrap();
+				if rng.gen_bool(0.5) { (i, 0, 0) } else { (i, rng.gen_range(0..33), rng.gen_range(0..8)) }
+			} else {
+				let i = *idx.choose(rng).unwrap();
+				(i, rng.gen_range(0..recs[i].1.len()), rng.gen_range(0..8))
+			};
+			let mut r = recs.clone();
+			r[i].1[byte] ^= 1 << bit;
+			out.push((format!("bit:t{}:{}:{}", recs[i].0, byte, bit), r));
+		}
+		return out;
 	}
 	let mut with = |name: &str, t: u64, v: Vec<u8>| {
 		let mut r = recs.clone();
@@ -842,6 +862,264 @@ fn run_proto(cx: &mut Ctx, script: &Value, seed: u64, secp: &Secp, stats: &mut S
 				},
 				_ => {},
 			}
+		}
+	}
+}
+
+// ------------------------------------------------------------------------------------------------
+// part (i), single-bit sweeps: every bit of every TLV value of an offer / refund / echoed request
+// is flipped; every altered copy that the library still parses and that still yields a signed
+// request (resp. invoice) is presented to the original creator's verify_using_*.
+
+fn small_path(rng: &mut StdRng, secp: &Secp) -> BlindedMessagePath {
+	let hops = vec![BlindedHop {
+		blinded_node_id: rand_pk(rng, secp),
+		encrypted_payload: (0..rng.gen_range(18..26)).map(|_| rng.gen()).collect(),
+	}];
+	BlindedMessagePath::from_blinded_path(rand_pk(rng, secp), rand_pk(rng, secp), hops)
+}
+
+#[allow(clippy::too_many_arguments)]
+fn run_sweeps(
+	d: &Value, seed: u64, run: &mut u64, tw: &mut TraceWriter, secp: &Secp, stats: &mut Stats,
+	panics: &mut u64, max_bits: usize,
+) {
+	let first = *run + 1;
+	let mut rng = StdRng::seed_from_u64(seed ^ first.wrapping_mul(0x9e37_79b9_7f4a_7c15) ^ 0x5eeb);
+	let salt: u64 = rng.gen();
+	let parties = [party(secp, salt, 1), party(secp, salt, 2)];
+	let kind = d["kind"].as_str().unwrap().to_string();
+	let mode = d["mode"].as_str().unwrap().to_string();
+	let short = |rng: &mut StdRng| rand_text(rng, 8);
+	// ---- honest base objects (built once; every batch run replays their build events)
+	let mut base_events: Vec<Value> = Vec::new();
+	let mut offer: Option<(Offer, Nonce)> = None;
+	let mut refund: Option<Refund> = None;
+	let mut invreq: Option<InvoiceRequest> = None;
+	let mut honest: Option<Bolt12Invoice> = None;
+	let mut err = String::new();
+	let built = catch_unwind(AssertUnwindSafe(|| {
+		if kind == "refund" {
+			let o = RefundOpts {
+				amount: rng.gen_range(1..2_000_000_000),
+				desc: short(&mut rng),
+				expiry: if rng.gen_bool(0.5) { Some(FAR_FUTURE) } else { None },
+				issuer: if rng.gen_bool(0.5) { Some(short(&mut rng)) } else { None },
+				paths: 0,
+				testnet: rng.gen_bool(0.3),
+				qty: if rng.gen_bool(0.5) { Some(rng.gen_range(1..10)) } else { None },
+				note: if rng.gen_bool(0.5) { Some(short(&mut rng)) } else { None },
+				explicit_md: (0..*[0usize, 8, 48].choose(&mut rng).unwrap()).map(|_| rng.gen()).collect(),
+			};
+			let e = |e| format!("{:?}", e);
+			let r = if mode == "path" {
+				// like create_refund, with one small blinded path
+				let nonce = Nonce::from_entropy_source(&parties[1].ent);
+				RefundBuilder::deriving_signing_pubkey(
+					parties[1].pk, &parties[1].ek, nonce, secp, o.amount, PaymentId(r32(&mut rng)),
+				)
+				.map_err(e)
+				.and_then(|b| {
+					let b = b.path(small_path(&mut rng, secp));
+					apply_refund_opts(b, &o, &mut rng, secp)
+				})
+			} else {
+				create_refund(&parties[1], &mode, &o, &mut rng, secp)
+			};
+			match r {
+				Ok(r) => refund = Some(r),
+				Err(e) => err = e,
+			}
+			base_events.push(json!({"ev":"refund","n":2,"mode":mode,"src":0,"cls":"none","id":1,
+				"ok":refund.is_some(),"what":"","err":err}));
+		} else {
+			let o = OfferOpts {
+				chain: *[0u8, 0, 2].choose(&mut rng).unwrap(),
+				amount: if rng.gen_bool(0.7) { Some(rng.gen_range(1..2_000_000_000)) } else { None },
+				desc: if rng.gen_bool(0.6) { Some(short(&mut rng)) } else { None },
+				expiry: if rng.gen_bool(0.4) { Some(FAR_FUTURE) } else { None },
+				issuer: if rng.gen_bool(0.4) { Some(short(&mut rng)) } else { None },
+				paths: 0,
+				qty: *[0u8, 0, 1, 2].choose(&mut rng).unwrap(),
+				qty_max: rng.gen_range(2..20),
+				explicit_md: if mode == "explicit" && rng.gen_bool(0.5) {
+					Some((0..*[8usize, 16, 48].choose(&mut rng).unwrap()).map(|_| rng.gen()).collect())
+				} else {
+					None
+				},
+			};
+			let p = &parties[0];
+			let nonce = Nonce::from_entropy_source(&p.ent);
+			let with_path = mode == "path" || (mode == "explicit" && rng.gen_bool(0.5));
+			let r = if mode == "explicit" {
+				let mut b = OfferBuilder::new(p.pk);
+				if let Some(md) = &o.explicit_md {
+					b = b.metadata(md.clone()).unwrap();
+				}
+				if with_path {
+					b = b.path(small_path(&mut rng, secp));
+				}
+				apply_offer_opts(b, &o, &mut rng, secp).build()
+			} else {
+				let mut b = OfferBuilder::deriving_signing_pubkey(p.pk, &p.ek, nonce, secp);
+				if with_path {
+					b = b.path(small_path(&mut rng, secp));
+				}
+				apply_offer_opts(b, &o, &mut rng, secp).build()
+			};
+			match r {
+				Ok(x) => offer = Some((x, nonce)),
+				Err(e) => err = format!("{:?}", e),
+			}
+			base_events.push(json!({"ev":"offer","n":1,"mode":mode,"src":0,"cls":"none","id":1,
+				"ok":offer.is_some(),"what":"","err":err}));
+			if kind == "echo" {
+				if let Some((o, nonce)) = &offer {
+					let mut e2 = String::new();
+					match create_invreq(&parties[1], o, &mut rng, secp) {
+						Ok(r) => {
+							let io = InvOpts { npaths: 1, rel_expiry: None, fallbacks: 0, mpp: false };
+							match respond(&parties[0], &r, &mode, Some(*nonce), &io, &mut rng, secp) {
+								Ok(i) => honest = Some(i),
+								Err(e) => e2 = e,
+							}
+							invreq = Some(r);
+						},
+						Err(e) => e2 = e,
+					}
+					base_events.push(json!({"ev":"request","n":2,"mode":"none","src":1,"cls":"none","id":2,
+						"ok":invreq.is_some() && honest.is_some(),"what":"","err":e2}));
+				}
+			}
+		}
+	}));
+	let base_ok = built.is_ok() && base_events.iter().all(|e| e["ok"] == true) && !base_events.is_empty();
+	// ---- the bits
+	let recs: Recs = if !base_ok {
+		Vec::new()
+	} else if kind == "refund" {
+		tlv_parse(&enc(refund.as_ref().unwrap())).unwrap()
+	} else if kind == "offer" {
+		tlv_parse(&enc(&offer.as_ref().unwrap().0)).unwrap()
+	} else {
+		let mut r = tlv_parse(&enc(honest.as_ref().unwrap())).unwrap();
+		r.retain(|x| !(240..=1000).contains(&x.0));
+		r
+	};
+	let mut bits: Vec<(usize, usize, usize)> = Vec::new();
+	for (i, (t, v)) in recs.iter().enumerate() {
+		if *t < 160 {
+			for byte in 0..v.len() {
+				for bit in 0..8 {
+					bits.push((i, byte, bit));
+				}
+			}
+		}
+	}
+	if max_bits > 0 && bits.len() > max_bits {
+		// keep every key's parity / first byte, sample the rest
+		let (mut keep, mut rest): (Vec<_>, Vec<_>) =
+			bits.into_iter().partition(|(i, byte, _)| recs[*i].1.len() == 33 && *byte == 0);
+		rest.shuffle(&mut rng);
+		rest.truncate(max_bits.saturating_sub(keep.len()));
+		keep.extend(rest);
+		keep.sort();
+		bits = keep;
+	}
+	let nbase = base_events.len();
+	let batches: Vec<Vec<(usize, usize, usize)>> =
+		if bits.is_empty() { vec![Vec::new()] } else { bits.chunks(24).map(|c| c.to_vec()).collect() };
+	for (bi, batch) in batches.iter().enumerate() {
+		*run += 1;
+		let r = *run;
+		let mut log: Vec<Value> = Vec::new();
+		let res = catch_unwind(AssertUnwindSafe(|| {
+			let mut cx = Ctx { run: r, log: &mut log };
+			cx.ev(json!({"ev":"reset","part":"sweep","directive":d,"first_run":first,"batch":bi}));
+			if built.is_err() {
+				panic!("base build panicked");
+			}
+			for e in base_events.iter() {
+				cx.ev(e.clone());
+			}
+			if !base_ok {
+				stats.proto_build_failed += 1;
+				return;
+			}
+			let mut next = nbase + 1;
+			let mut skipped = 0u64;
+			for (i, byte, bit) in batch.iter().copied() {
+				let mut m = recs.clone();
+				m[i].1[byte] ^= 1 << bit;
+				let what = format!("bit:t{}:{}:{}", recs[i].0, byte, bit);
+				let bytes = tlv_ser(&m);
+				stats.sweep_bits += 1;
+				if kind == "offer" {
+					let (_, nonce) = offer.as_ref().unwrap();
+					let alt = match Offer::try_from(bytes) {
+						Ok(a) => a,
+						Err(_) => { skipped += 1; continue },
+					};
+					let req = match create_invreq(&parties[1], &alt, &mut rng, secp) {
+						Ok(q) => q,
+						Err(_) => { skipped += 1; continue },
+					};
+					cx.ev(json!({"ev":"alter","n":0,"mode":"none","src":1,"cls":"bit","id":next,"ok":true,"what":what,"err":""}));
+					cx.ev(json!({"ev":"request","n":2,"mode":"none","src":next,"cls":"none","id":next + 1,"ok":true,"what":"","err":""}));
+					let p = &parties[0];
+					let a = req.clone().verify_using_metadata(&p.ek, secp).is_ok();
+					stats.verifies += 1;
+					stats.accepts += a as u64;
+					cx.ev(json!({"ev":"verify_invreq","n":1,"obj":next + 1,"via":"metadata","nz":0,"accept":a}));
+					if mode == "path" {
+						let a = req.clone().verify_using_recipient_data(*nonce, &p.ek, secp).is_ok();
+						stats.verifies += 1;
+						stats.accepts += a as u64;
+						cx.ev(json!({"ev":"verify_invreq","n":1,"obj":next + 1,"via":"recipient","nz":1,"accept":a}));
+					}
+					next += 2;
+				} else if kind == "refund" {
+					let alt = match Refund::try_from(bytes) {
+						Ok(a) => a,
+						Err(_) => { skipped += 1; continue },
+					};
+					let io = InvOpts { npaths: 1, rel_expiry: None, fallbacks: 0, mpp: false };
+					let inv = match respond_refund(&parties[0], &alt, &io, false, &mut rng, secp) {
+						Ok(i) => i,
+						Err(_) => { skipped += 1; continue },
+					};
+					cx.ev(json!({"ev":"alter","n":0,"mode":"none","src":1,"cls":"bit","id":next,"ok":true,"what":what,"err":""}));
+					cx.ev(json!({"ev":"respond_refund","n":1,"mode":"none","src":next,"cls":"none","id":next + 1,"ok":true,"what":"","err":""}));
+					let a = inv.verify_using_metadata(&parties[1].ek, secp).is_ok();
+					stats.verifies += 1;
+					stats.accepts += a as u64;
+					cx.ev(json!({"ev":"verify_invoice","n":2,"obj":next + 1,"accept":a}));
+					next += 2;
+				} else {
+					let inv = match UnsignedBolt12Invoice::try_from(bytes)
+						.map_err(|e| format!("{:?}", e))
+						.and_then(|u| sign_unsigned(u, &parties[0].kp, secp))
+					{
+						Ok(i) => i,
+						Err(_) => { skipped += 1; continue },
+					};
+					cx.ev(json!({"ev":"respond","n":1,"mode":"none","src":2,"cls":"bit","id":next,"ok":true,"what":what,"err":""}));
+					let a = inv.verify_using_metadata(&parties[1].ek, secp).is_ok();
+					stats.verifies += 1;
+					stats.accepts += a as u64;
+					cx.ev(json!({"ev":"verify_invoice","n":2,"obj":next,"accept":a}));
+					next += 1;
+				}
+				stats.sweep_judged += 1;
+			}
+			cx.ev(json!({"ev":"fuzz","target":"sweep_bits_not_parseable_or_not_buildable","len":skipped,"parsed":false}));
+		}));
+		if res.is_err() {
+			*panics += 1;
+			log.push(json!({"run":r,"ev":"panic","where":"sweep"}));
+		}
+		for e in log {
+			tw.emit(e);
 		}
 	}
 }
@@ -1737,6 +2015,8 @@ struct Stats {
 	b12_built: u64,
 	roundtrips: u64,
 	fuzz: u64,
+	sweep_bits: u64,
+	sweep_judged: u64,
 	b11_mut: BTreeMap<String, u64>,
 	b12_mut: BTreeMap<String, u64>,
 }
@@ -1763,6 +2043,8 @@ fn main() {
 	let mut full = 0usize;
 	let mut fuzz = 0usize;
 	let mut first_run = 1u64;
+	let mut sweeps_path = None;
+	let mut sweep_bits = 0usize;
 	let mut i = 1;
 	while i < args.len() {
 		match args[i].as_str() {
@@ -1774,6 +2056,8 @@ fn main() {
 			"--full" => { full = args[i + 1].parse().unwrap(); i += 1 },
 			"--fuzz" => { fuzz = args[i + 1].parse().unwrap(); i += 1 },
 			"--first-run" => { first_run = args[i + 1].parse().unwrap(); i += 1 },
+			"--sweeps" => { sweeps_path = Some(args[i + 1].clone()); i += 1 },
+			"--sweep-bits" => { sweep_bits = args[i + 1].parse().unwrap(); i += 1 },
 			_ => {},
 		}
 		i += 1;
@@ -1844,6 +2128,10 @@ fn main() {
 		}
 		flush(log, &mut tw);
 	}
+	// single-bit sweeps come last: one directive produces several runs
+	for d in read_lines(&sweeps_path).iter() {
+		run_sweeps(d, seed, &mut run, &mut tw, &secp, &mut stats, &mut panics, sweep_bits);
+	}
 	tw.flush();
 	println!(
 		"{}",
@@ -1853,6 +2141,7 @@ fn main() {
 			"b11_cases": stats.b11_cases, "b11_built": stats.b11_built,
 			"b12_cases": stats.b12_cases, "b12_built": stats.b12_built,
 			"roundtrips": stats.roundtrips, "fuzz": stats.fuzz,
+			"sweep_bits": stats.sweep_bits, "sweep_judged": stats.sweep_judged,
 			"b11_mut": stats.b11_mut, "b12_mut": stats.b12_mut})
 	);
 }
